@@ -116,3 +116,412 @@ package operators
 //@   memoize re
 //@ func NewValidateSchema props C13
 //@   memoize schema
+
+// ---- national id validators never panic, whatever text the rule's regex hands them (C07)
+//@ func nidCl props C07,C15
+//@ func nidUs props C07,C15 infer
+
+// ---- @ipMatch list parsing (C15): a bare address is matched as exactly that host. Every IPv6 address contains ':'
+// and no IPv4 address does, so the 32-bit host mask may only be appended to an entry without ':' and every bare entry
+// with ':' gets the 128-bit mask.
+//@ func newIPMatch props C15 nosafety
+//@   at "/32" requires v4MaskOnlyForV4: !strContains(sb, ":")
+//@   at "/128" requires v6MaskOnlyForV6: strContains(sb, ":")
+
+// ---- @rx byte-escape detection (C15): a \xNN escape needs four characters; decoding gives up on a backslash only
+// when fewer than four characters remain, so an escape at the very end of the pattern is still decoded.
+//@ func matchesArbitraryBytes props C15,C07 infer
+//@   at call "append(decoded, expr[i:]" requires givesUpOnlyWhenTooShort: len(expr) - i < 4
+
+// ==== BEGIN C11 rx prefilter section ====
+// Property C11: SecRxPreFilter never changes what @rx matches or captures. What is verified here is the layer between
+// the literals extracted from the pattern and the prefilter's answer (the ASCII-fold string helpers, the shift-table
+// matcher, the lower-casing discipline of the extracted literals) and the fast paths of (*rx).Evaluate.
+
+// ---- (*rx).Evaluate: the fast paths in front of the regexp.
+// hasNL(s): s contains a line feed. newRX compiles the pattern in multi-line mode, where `$` also matches before a
+// '\n'; only for values without one is `^literal$` the same as equality with the literal.
+//@ define hasNL(s string) bool := exists k int :: 0 <= k && k < len(s) && s[k] == '\n'
+// What the property needs of the operator object (established by newRX through prefilterFunc / minMatchLength /
+// extractExactMatch, i.e. by the regexp-semantics layer that is out of reach here): for an exact-match pattern the
+// cheap guards in front of the comparison never reject a value the comparison accepts.
+//@ define rxGuardsPass(o *rx, v string) bool := len(v) >= o.minLen && (o.prefilter == nil || pfSays(o.prefilter, v))
+//@ func (*rx).Evaluate props C11,C15,C07
+//@   requires re: o.re != nil
+//@   requires tx: !isnil(tx)
+//@   requires guardsFitExactCS: o.exactMatch != "" && !o.exactMatchCI ==> rxGuardsPass(o, o.exactMatch)
+//@   requires guardsFitExactCI: o.exactMatch != "" && o.exactMatchCI ==> (forall v string :: strEqualFold(v, o.exactMatch) ==> rxGuardsPass(o, v))
+// exact-match fast path: for a value without '\n' the result is the comparison and nothing else decides it
+//@   ensures exactCS: o.exactMatch != "" && !o.exactMatchCI && !hasNL(value) ==> result == (value == o.exactMatch)
+//@   ensures exactCI: o.exactMatch != "" && o.exactMatchCI && !hasNL(value) ==> result == strEqualFold(value, o.exactMatch)
+// a rejecting prefilter (or length guard) gives false; whenever the result is false nothing is captured
+//@   ensures prefilterRejects: o.prefilter != nil && !pfSays(o.prefilter, value) ==> !result
+//@   ensures noCaptureOnFalse: !result ==> capCalls == old(capCalls)
+// otherwise the regexp decides
+//@   ensures regexDecides: rxGuardsPass(o, value) && (o.exactMatch == "" || hasNL(value)) ==> result == rxMatch(o.re, value)
+// a match of a capturing transaction records the whole match as group 0 (TX.0), on every path (C11: captures are the
+// same with the prefilter on); on the exact-match path the whole match is the value itself
+//@   ensures capturesGroup0: result && txCapturing(tx) ==> cap0Calls == old(cap0Calls) + 1
+//@   ensures exactCapturesValue: result && txCapturing(tx) && o.exactMatch != "" && !hasNL(value) ==> cap0 == value
+//@   loop 1 vars i
+//@     invariant 0 <= i && i <= len(match) / 2 && i <= 9
+//@     invariant len(match) >= 2 && len(match) % 2 == 0
+//@     invariant cap0Calls == old(cap0Calls) + ite(i > 0, 1, 0)
+//@     invariant capCalls == old(capCalls) + i
+
+// lowerASCIIByte(c): ASCII case folding of one byte: A-Z mapped to a-z, every other byte itself.
+//@ define lowerASCIIByte(c int) int := ite('A' <= c && c <= 'Z', c + 32, c)
+// isLowerStr(s): s has no ASCII upper-case letter (what the helpers call "already lowercase"); isASCIIStr(s): every byte
+// of s is below 0x80. Both are defined in /verif/specs/rxprefilter.spec, next to the facts assumed about strings.ToLower.
+// foldEqAt(s, i, needle): needle occurs at offset i of s up to ASCII case (the occurrence relation a case-insensitive
+// pattern literal has with the input, restricted to ASCII folding). Symmetric in the case of both sides: the helpers
+// only fold the haystack byte, which is why they need an already lower-case needle.
+//@ spec foldEqAt(s string, i int, needle string) bool
+// (indexed by the position q in s rather than the offset in needle: the matchers reason from a haystack byte s[q])
+//@ axiom foldEqAtDef: forall s string, i int, needle string :: foldEqAt(s, i, needle) <==>
+//@     (forall q int :: i <= q && q < i + len(needle) ==> lowerASCIIByte(s[q]) == lowerASCIIByte(needle[q - i]))
+// occursFold(s, needle): needle occurs somewhere in s up to ASCII case.
+//@ define occursFold(s string, needle string) bool := exists i int :: 0 <= i && i + len(needle) <= len(s) && foldEqAt(s, i, needle)
+
+//@ func equalFoldASCIIBytes props C11,C07
+//@   requires sameLen: len(a) == len(b)
+//@   requires needleLower: isLowerStr(b)
+//@   ensures result == foldEqAt(a, 0, b)
+//@   ensures ofSlice: forall t string, i int, j int :: 0 <= i && i <= j && j <= len(t) && a == t[i:j] ==> result == foldEqAt(t, i, b)
+//@   loop 1 vars i
+//@     invariant 0 <= i && i <= len(a)
+//@     invariant forall k int :: 0 <= k && k < i ==> lowerASCIIByte(a[k]) == lowerASCIIByte(b[k])
+//@     decreases len(a) - i
+
+//@ func isASCII props C11,C07
+//@   ensures result == isASCIIStr(s)
+//@   loop 1 vars i
+//@     invariant 0 <= i && i <= len(s)
+//@     invariant forall k int :: 0 <= k && k < i ==> s[k] <= 127
+//@     decreases len(s) - i
+
+//@ func allASCIIStrings props C11,C07
+//@   ensures result == (forall j int :: 0 <= j && j < len(ss) ==> isASCIIStr(ss[j]))
+//@   loop 1
+//@     invariant -1 <= rangeindex && rangeindex < len(ss)
+//@     invariant forall j int :: 0 <= j && j <= rangeindex ==> isASCIIStr(ss[j])
+
+//@ func hasPrefixFoldASCII props C11,C07
+//@   requires needleLower: isLowerStr(prefix)
+//@   ensures result <==> (len(prefix) <= len(s) && foldEqAt(s, 0, prefix))
+//@ func hasSuffixFoldASCII props C11,C07
+//@   requires needleLower: isLowerStr(suffix)
+//@   ensures result <==> (len(suffix) <= len(s) && foldEqAt(s, len(s) - len(suffix), suffix))
+
+// The first-byte scan may only skip offsets at which the needle cannot start. (Invariant `split` is a proof hint: it
+// lets the facts strings.IndexByte states about s[i:] reach the positions of s. The first conjunct in the second
+// invariant is implied by foldEqAt and only names the byte s[j] for the solver.)
+//@ func containsFoldASCIIOnly props C11,C07
+//@   requires nonEmpty: len(needle) > 0
+//@   requires needleLower: isLowerStr(needle)
+//@   ensures result <==> occursFold(s, needle)
+//@   loop 1 vars i
+//@     invariant 0 <= i && i <= limit + 1
+//@     invariant forall j int :: 0 <= j && j < i ==> !(lowerASCIIByte(s[j]) == lowerASCIIByte(needle[0]) && foldEqAt(s, j, needle))
+//@     invariant split: s == s[0:i] + s[i:len(s)]
+//@     decreases limit + 1 - i
+
+// Completeness is what C11 needs (never "cannot match" when the needle is there); for an ASCII needle the answer is exact.
+//@ func containsFoldASCII props C11,C07
+//@   requires needleLower: isLowerStr(needle)
+//@   ensures complete: occursFold(s, needle) ==> result
+//@   ensures exactForASCII: isASCIIStr(needle) ==> (result <==> occursFold(s, needle))
+
+// ---- small list helpers of the literal pipeline
+//@ func anyTooShort props C11,C07
+//@   modifies nothing
+//@   ensures result <==> (exists j int :: 0 <= j && j < len(ss) && len(ss[j]) < minLen)
+//@   loop 1
+//@     invariant -1 <= rangeindex && rangeindex < len(ss)
+//@     invariant forall j int :: 0 <= j && j <= rangeindex ==> len(ss[j]) >= minLen
+
+// filterShort compacts in place. It may drop needles (safe for "all of these must occur") but must never invent one:
+// every element of the result is an element of the input; the survivors keep their order, so a first / last input
+// element that is long enough is still first / last (prefilterFunc relies on that for the anchored prefix / suffix check).
+//@ func filterShort props C11,C07
+//@   ensures sub: 0 <= len(result) && len(result) <= len(ss)
+//@   ensures long: forall j int :: 0 <= j && j < len(result) ==> len(result[j]) >= minLen
+//@   ensures noneInvented: forall j int :: 0 <= j && j < len(result) ==> (exists m int :: j <= m && m < len(ss) && result[j] == old(ss[m]))
+//@   ensures firstKept: len(ss) > 0 && len(old(ss[0])) >= minLen ==> len(result) > 0 && result[0] == old(ss[0])
+//@   ensures lastKept: len(ss) > 0 && len(old(ss[len(ss) - 1])) >= minLen ==> len(result) > 0 && result[len(result) - 1] == old(ss[len(ss) - 1])
+//@   ensures allKeptIfAllLong: (forall m int :: 0 <= m && m < len(ss) ==> len(old(ss[m])) >= minLen) ==> len(result) == len(ss)
+//@   ensures keepsLower: old(allLowerStrs(ss)) ==> allLowerStrs(result)
+//@   loop 1
+//@     invariant -1 <= rangeindex && rangeindex < len(ss)
+//@     invariant 0 <= k && k <= rangeindex + 1
+//@     invariant forall j int :: 0 <= j && j < k ==> len(ss[j]) >= minLen
+//@     invariant forall j int :: 0 <= j && j < k ==> (exists m int :: j <= m && m <= rangeindex && ss[j] == old(ss[m]))
+//@     invariant forall j int :: rangeindex < j && j < len(ss) ==> ss[j] == old(ss[j])
+//@     invariant rangeindex >= 0 && len(old(ss[0])) >= minLen ==> k > 0 && ss[0] == old(ss[0])
+//@     invariant forall m int :: m == rangeindex && m >= 0 && len(old(ss[m])) >= minLen ==> k > 0 && ss[k - 1] == old(ss[m])
+//@     invariant (forall m int :: 0 <= m && m <= rangeindex ==> len(old(ss[m])) >= minLen) ==> k == rangeindex + 1
+
+// longest picks an element of ss (a literal that was really extracted), of maximal length.
+//@ func longest props C11,C07
+//@   modifies nothing
+//@   ensures len(ss) == 0 ==> result == ""
+//@   ensures member: len(ss) > 0 ==> (exists j int :: 0 <= j && j < len(ss) && result == ss[j])
+//@   ensures maximal: forall j int :: 0 <= j && j < len(ss) ==> len(ss[j]) <= len(result)
+//@   loop 1
+//@     invariant -1 <= rangeindex && rangeindex < len(ss) - 1
+//@     invariant exists j int :: 0 <= j && j <= rangeindex + 1 && best == ss[j]
+//@     invariant forall j int :: 0 <= j && j <= rangeindex + 1 ==> len(ss[j]) <= len(best)
+
+// ---- indexedMatcher (Wu-Manber shift table): completeness -- a needle that occurs in s is never skipped.
+// eqAt(s, p, n): n occurs at offset p of s, byte for byte.
+//@ spec eqAt(s string, p int, n string) bool
+// (indexed by the position q in s rather than the offset in n: the matcher reasons from a haystack byte s[q])
+//@ axiom eqAtDef: forall s string, p int, n string :: eqAt(s, p, n) <==> (forall q int :: p <= q && q < p + len(n) ==> s[q] == n[q - p])
+// Stored needles are addressed as m.endBuckets[c][j]. (Quantifiers over (c, j) are written nested, c outside, so that
+// the engine's trigger hygiene for slice indices applies to j.)
+// imAll(m, P) is spelled out below as: forall c :: 0 <= c < 256 ==> forall j :: 0 <= j < len(m.endBuckets[c]) ==> P.
+// Data-structure invariant: minLen is a lower bound of every stored needle's length (0 only when nothing is stored, so
+// no stored needle is empty); a needle sits in the bucket of its byte at minLen-1; no shift exceeds minLen, and the
+// shift of a byte never exceeds its distance from the window's right edge in any stored needle (in case-insensitive
+// mode also for the upper-case variant of the byte, and the stored needles are lower-case).
+//@ define imWF(m *indexedMatcher) bool := m != nil && m.minLen >= 0 &&
+//@     (m.minLen == 0 ==> (forall c int :: 0 <= c && c < 256 ==> len(m.endBuckets[c]) == 0)) &&
+//@     (forall c int :: 0 <= c && c < 256 ==> m.shift[c] <= m.minLen) &&
+//@     (forall c int :: 0 <= c && c < 256 ==> (forall j int :: 0 <= j && j < len(m.endBuckets[c]) ==>
+//@         len(m.endBuckets[c][j]) >= m.minLen && (m.minLen > 0 ==> m.endBuckets[c][j][m.minLen - 1] == c))) &&
+//@     (forall c int :: 0 <= c && c < 256 ==> (forall j int, k int :: 0 <= j && j < len(m.endBuckets[c]) && 0 <= k && k < m.minLen ==>
+//@         m.shift[m.endBuckets[c][j][k]] <= m.minLen - 1 - k)) &&
+//@     (m.ci ==> (forall c int :: 0 <= c && c < 256 ==> (forall j int :: 0 <= j && j < len(m.endBuckets[c]) ==> isLowerStr(m.endBuckets[c][j])))) &&
+//@     (m.ci ==> (forall c int :: 0 <= c && c < 256 ==> (forall j int, k int :: 0 <= j && j < len(m.endBuckets[c]) && 0 <= k && k < m.minLen &&
+//@         'a' <= m.endBuckets[c][j][k] && m.endBuckets[c][j][k] <= 'z' ==> m.shift[m.endBuckets[c][j][k] - 32] <= m.minLen - 1 - k)))
+
+//@ func (*indexedMatcher).matchCS props C11,C07
+//@   requires wf: imWF(m)
+//@   ensures complete: forall c int :: 0 <= c && c < 256 ==> (forall j int, p int :: 0 <= j && j < len(m.endBuckets[c]) &&
+//@       0 <= p && p + len(m.endBuckets[c][j]) <= len(s) && eqAt(s, p, m.endBuckets[c][j]) ==> result)
+//@   loop 1 vars i
+//@     invariant ml == m.minLen && ml >= 1 && ml - 1 <= i
+//@     invariant forall c int :: 0 <= c && c < 256 ==> (forall j int, p int :: 0 <= j && j < len(m.endBuckets[c]) &&
+//@         0 <= p && p < i - ml + 1 && p + len(m.endBuckets[c][j]) <= len(s) ==> !eqAt(s, p, m.endBuckets[c][j]))
+//@   loop 2
+//@     invariant -1 <= rangeindex && rangeindex < len(m.endBuckets[s[i]])
+//@     invariant forall j int :: 0 <= j && j <= rangeindex && pos + len(m.endBuckets[s[i]][j]) <= len(s) ==> !eqAt(s, pos, m.endBuckets[s[i]][j])
+
+//@ func (*indexedMatcher).matchCI props C11,C07
+//@   requires wf: imWF(m)
+//@   requires ci: m.ci
+//@   ensures complete: forall c int :: 0 <= c && c < 256 ==> (forall j int, p int :: 0 <= j && j < len(m.endBuckets[c]) &&
+//@       0 <= p && p + len(m.endBuckets[c][j]) <= len(s) && foldEqAt(s, p, m.endBuckets[c][j]) ==> result)
+//@   loop 1 vars i
+//@     invariant ml == m.minLen && ml >= 1 && ml - 1 <= i
+//@     invariant forall c int :: 0 <= c && c < 256 ==> (forall j int, p int :: 0 <= j && j < len(m.endBuckets[c]) &&
+//@         0 <= p && p < i - ml + 1 && p + len(m.endBuckets[c][j]) <= len(s) ==> !foldEqAt(s, p, m.endBuckets[c][j]))
+//@   loop 2
+//@     invariant -1 <= rangeindex && rangeindex < len(m.endBuckets[lb])
+//@     invariant forall j int :: 0 <= j && j <= rangeindex && pos + len(m.endBuckets[lb][j]) <= len(s) ==> !foldEqAt(s, pos, m.endBuckets[lb][j])
+
+// match: a stored needle that occurs in s (byte for byte, resp. up to ASCII case in case-insensitive mode) gives true.
+//@ func (*indexedMatcher).match props C11,C07
+//@   requires wf: imWF(m)
+//@   ensures completeCS: !m.ci ==> (forall c int :: 0 <= c && c < 256 ==> (forall j int, p int :: 0 <= j && j < len(m.endBuckets[c]) &&
+//@       0 <= p && p + len(m.endBuckets[c][j]) <= len(s) && eqAt(s, p, m.endBuckets[c][j]) ==> result))
+//@   ensures completeCI: m.ci ==> (forall c int :: 0 <= c && c < 256 ==> (forall j int, p int :: 0 <= j && j < len(m.endBuckets[c]) &&
+//@       0 <= p && p + len(m.endBuckets[c][j]) <= len(s) && foldEqAt(s, p, m.endBuckets[c][j]) ==> result))
+
+// newIndexedMatcher establishes the invariant and stores every needle (lower-cased in case-insensitive mode) in the
+// bucket of its byte at minLen-1. It indexes n[minLen-1] of every needle, so no needle may be empty; in case-insensitive
+// mode it lower-cases with strings.ToLower but keeps the minimum length of the ORIGINAL needles, so the needles must be
+// ASCII (ToLower can shorten a non-ASCII string, e.g. U+0130). prefilterFunc / buildCombinedPF check both before the call.
+//@ define imNorm(ci bool, s string) string := ite(ci, lower(s), s)
+//@ func newIndexedMatcher props C11,C07
+//@   requires nonEmpty: forall i int :: 0 <= i && i < len(needles) ==> len(needles[i]) >= 1
+//@   requires asciiIfCI: ci ==> (forall i int :: 0 <= i && i < len(needles) ==> isASCIIStr(needles[i]))
+//@   ensures wf: imWF(result) && result.ci == ci
+//@   ensures stored: forall i int :: 0 <= i && i < len(needles) ==> (exists j int :: 0 <= j && j < len(result.endBuckets[imNorm(ci, needles[i])[result.minLen - 1]]) &&
+//@       result.endBuckets[imNorm(ci, needles[i])[result.minLen - 1]][j] == imNorm(ci, needles[i]))
+//@   loop 1
+//@     invariant -1 <= rangeindex && rangeindex < len(needles) - 1
+//@     invariant im.minLen >= 1 && (forall k int :: 0 <= k && k <= rangeindex + 1 ==> im.minLen <= len(needles[k]))
+//@   loop 2
+//@     invariant -1 <= rangeindex && rangeindex < 256
+//@     invariant forall c int :: 0 <= c && c <= rangeindex ==> im.shift[c] == ml
+//@   loop 3
+//@     invariant -1 <= rangeindex && rangeindex < len(needles) && len(norms) == len(needles) && base(norms) != base(needles)
+//@     invariant forall k int :: 0 <= k && k < len(needles) ==> needles[k] == old(needles[k])
+//@     invariant forall k int :: 0 <= k && k <= rangeindex ==> norms[k] == lower(old(needles[k]))
+//@   loop 4
+//@     invariant -1 <= rangeindex && rangeindex < len(norms) && len(norms) == len(needles)
+//@     invariant normsKept: forall k int :: 0 <= k && k < len(needles) ==> norms[k] == imNorm(ci, old(needles[k]))
+//@     invariant forall c int :: 0 <= c && c < 256 ==> im.shift[c] <= im.minLen
+//@     invariant forall k int :: 0 <= k && k <= rangeindex ==> (forall j int :: 0 <= j && j < im.minLen ==> im.shift[imNorm(ci, old(needles[k]))[j]] <= im.minLen - 1 - j)
+//@     invariant ci ==> (forall k int :: 0 <= k && k <= rangeindex ==> (forall j int :: 0 <= j && j < im.minLen && 'a' <= imNorm(ci, old(needles[k]))[j] && imNorm(ci, old(needles[k]))[j] <= 'z' ==>
+//@         im.shift[imNorm(ci, old(needles[k]))[j] - 32] <= im.minLen - 1 - j))
+//@   loop 5 vars j
+//@     invariant 0 <= j && j <= im.minLen && 0 <= rangeindex + 1 && rangeindex + 1 < len(needles)
+//@     invariant forall m int :: m == rangeindex + 1 ==> n == imNorm(ci, old(needles[m]))
+//@     invariant forall c int :: 0 <= c && c < 256 ==> im.shift[c] <= im.minLen
+//@     invariant forall k int :: 0 <= k && k <= rangeindex ==> (forall j2 int :: 0 <= j2 && j2 < im.minLen ==> im.shift[imNorm(ci, old(needles[k]))[j2]] <= im.minLen - 1 - j2)
+//@     invariant ci ==> (forall k int :: 0 <= k && k <= rangeindex ==> (forall j2 int :: 0 <= j2 && j2 < im.minLen && 'a' <= imNorm(ci, old(needles[k]))[j2] && imNorm(ci, old(needles[k]))[j2] <= 'z' ==>
+//@         im.shift[imNorm(ci, old(needles[k]))[j2] - 32] <= im.minLen - 1 - j2))
+//@     invariant forall j2 int :: 0 <= j2 && j2 < j ==> im.shift[n[j2]] <= im.minLen - 1 - j2
+//@     invariant ci ==> (forall j2 int :: 0 <= j2 && j2 < j && 'a' <= n[j2] && n[j2] <= 'z' ==> im.shift[n[j2] - 32] <= im.minLen - 1 - j2)
+//@   loop 6
+//@     invariant -1 <= rangeindex && rangeindex < len(norms) && len(norms) == len(needles)
+//@     invariant normsKept: forall k int :: 0 <= k && k < len(needles) ==> norms[k] == imNorm(ci, old(needles[k]))
+//@     invariant lenOK: forall k int :: 0 <= k && k < len(needles) ==> len(imNorm(ci, old(needles[k]))) >= im.minLen
+//@     invariant capOK: forall c int :: 0 <= c && c < 256 ==> 0 <= len(im.endBuckets[c]) && len(im.endBuckets[c]) <= cap(im.endBuckets[c])
+//@     invariant sep: forall c int :: 0 <= c && c < 256 ==> cap(im.endBuckets[c]) == 0 || (fresh(im.endBuckets[c]) && base(im.endBuckets[c]) != base(norms))
+//@     invariant sep2: forall c1 int, c2 int :: 0 <= c1 && c1 < c2 && c2 < 256 && cap(im.endBuckets[c1]) > 0 && cap(im.endBuckets[c2]) > 0 ==> base(im.endBuckets[c1]) != base(im.endBuckets[c2])
+//@     invariant lowerOK: ci ==> (forall k int :: 0 <= k && k < len(needles) ==> isLowerStr(imNorm(ci, old(needles[k]))))
+//@     invariant w3a: forall c int :: 0 <= c && c < 256 ==> (forall j int :: 0 <= j && j < len(im.endBuckets[c]) ==> len(im.endBuckets[c][j]) >= im.minLen)
+//@     invariant w3b: forall c int :: 0 <= c && c < 256 ==> (forall j int :: 0 <= j && j < len(im.endBuckets[c]) ==> im.endBuckets[c][j][im.minLen - 1] == c)
+//@     invariant w4: forall c int :: 0 <= c && c < 256 ==> (forall j int, k2 int :: 0 <= j && j < len(im.endBuckets[c]) && 0 <= k2 && k2 < im.minLen ==>
+//@         im.shift[im.endBuckets[c][j][k2]] <= im.minLen - 1 - k2)
+//@     invariant w5: ci ==> (forall c int :: 0 <= c && c < 256 ==> (forall j int :: 0 <= j && j < len(im.endBuckets[c]) ==> isLowerStr(im.endBuckets[c][j])))
+//@     invariant w6: ci ==> (forall c int :: 0 <= c && c < 256 ==> (forall j int, k2 int :: 0 <= j && j < len(im.endBuckets[c]) && 0 <= k2 && k2 < im.minLen &&
+//@         'a' <= im.endBuckets[c][j][k2] && im.endBuckets[c][j][k2] <= 'z' ==> im.shift[im.endBuckets[c][j][k2] - 32] <= im.minLen - 1 - k2))
+//@     invariant stored: forall k int :: 0 <= k && k <= rangeindex ==> (exists j int :: 0 <= j && j < len(im.endBuckets[norms[k][im.minLen - 1]]) &&
+//@         im.endBuckets[norms[k][im.minLen - 1]][j] == norms[k])
+
+// ---- literal extraction: in case-insensitive mode every literal handed on is lower-case (the fold helpers compare the
+// lower-cased haystack byte with the RAW needle byte).
+//@ func rawLiteral props C11,C07
+//@   requires wf: astWF(re)
+//@   modifies nothing
+//@   ensures ci ==> isLowerStr(result)
+// allLowerStrs(ss): every element of ss is lower-case.
+//@ define allLowerStrs(ss []string) bool := forall j int :: 0 <= j && j < len(ss) ==> isLowerStr(ss[j])
+
+// extractLiterals returns nil, allRequired, anyRequired ([]string) or combinedRequired{all, any} in an interface.
+// (payload(i, "T") for these non-pointer dynamic types needs the engine change reported to main.)
+// The extraction functions only write slices they allocate themselves (`modifies nothing` = nothing that existed before).
+//@ func extractLiterals props C11,C07
+//@   requires wf: astWF(re)
+//@   modifies nothing
+//@   ensures allLower: ci && typeof(result) == tag("allRequired") ==> allLowerStrs(payload(result, "allRequired"))
+//@   ensures anyLower: ci && typeof(result) == tag("anyRequired") ==> allLowerStrs(payload(result, "anyRequired"))
+//@   ensures combinedLower: ci && typeof(result) == tag("combinedRequired") ==>
+//@       allLowerStrs(payload(result, "combinedRequired").all) && allLowerStrs(payload(result, "combinedRequired").any)
+//@   ensures combinedAnyLong: typeof(result) == tag("combinedRequired") ==>
+//@       (forall j int :: 0 <= j && j < len(payload(result, "combinedRequired").any) ==> len(payload(result, "combinedRequired").any[j]) >= 2)
+// base case, checked where the literal is handed on (independent of payload):
+//@   at "allRequired{s}" requires literalLower: ci ==> isLowerStr(s)
+//@   loop 2
+//@     invariant isnil(all) || fresh(all)
+//@     invariant ci ==> allLowerStrs(all) && (!isnil(bestAny) ==> allLowerStrs(bestAny))
+//@   loop 3
+//@     invariant isnil(branchLits) || fresh(branchLits)
+//@     invariant ci ==> allLowerStrs(branchLits)
+
+//@ func rawExtractSuffixes props C11,C07
+//@   requires wf: astWF(re)
+//@   modifies nothing
+//@   ensures ci ==> allLowerStrs(result)
+//@   loop 1
+//@     invariant isnil(result) || fresh(result)
+//@     invariant ci ==> allLowerStrs(result)
+
+// prefix + suffix of two lower-case strings is lower-case.
+//@ func trieReconstruct props C11,C07
+//@   requires wf: astWF(concat)
+//@   modifies nothing
+//@   ensures ci ==> allLowerStrs(result)
+//@   loop 1
+//@     invariant isnil(suffixes) || fresh(suffixes)
+//@     invariant ci ==> allLowerStrs(suffixes)
+//@   loop 2
+//@     invariant fresh(result) && base(result) != base(suffixes)
+//@     invariant ci ==> allLowerStrs(result) && allLowerStrs(suffixes) && isLowerStr(prefix)
+
+// ---- the prefilter closures. A closure is only ever called through rx.prefilter, so its `requires` about a captured
+// needle has no call site; it is checked in the enclosing function where the captured variable gets its value (`at` on
+// that assignment, or an `ensures` over the captured cells at the return that creates the closure). MakeClosure
+// instructions themselves have no source text an `at` clause could name.
+// buildMultiNeedlePF: needles must already be lower-case when ci is set (source comment); its closure $1 is the
+// case-insensitive one.
+//@ func buildMultiNeedlePF props C11,C07
+//@   requires needlesLower: ci ==> allLowerStrs(needles)
+//@   at "prefix = needles[0]" requires capturedPrefixLower: ci ==> isLowerStr(needles[0])
+//@   at "suffix = needles[len(needles)-1]" requires capturedSuffixLower: ci ==> isLowerStr(needles[len(needles) - 1])
+//@   at "middle = needles[" requires capturedMiddleLower: ci ==> allLowerStrs(needles)
+//@   at "middle := needles" requires capturedMiddleLower0: ci ==> allLowerStrs(needles)
+//@ func buildMultiNeedlePF$1 props C11,C07
+//@   requires capturedLower: isLowerStr(prefix) && isLowerStr(suffix) && allLowerStrs(middle)
+// what the property needs of the closure: it may only say false when some needle does not occur (up to ASCII case)
+//@   ensures complete: (prefix == "" || (len(prefix) <= len(s) && foldEqAt(s, 0, prefix))) && (suffix == "" || (len(suffix) <= len(s) && foldEqAt(s, len(s) - len(suffix), suffix))) &&
+//@       (forall j int :: 0 <= j && j < len(middle) ==> occursFold(s, middle[j])) ==> result
+//@   loop 1
+//@     invariant -1 <= rangeindex && rangeindex < len(middle)
+
+//@ func buildCombinedPF props C11,C07
+//@   requires lowerIfCI: ci ==> allLowerStrs(v.all) && allLowerStrs(v.any)
+//@   requires anyNonEmpty: forall j int :: 0 <= j && j < len(v.any) ==> len(v.any[j]) >= 1
+//@   requires wf: astWF(re)
+//@   at "needle := filteredAny[0]" requires capturedLower: ci ==> isLowerStr(filteredAny[0])
+// same anchored prefix / suffix logic as in prefilterFunc (before the fix `\A\d+hello.*(?:union|select)` rejected "1hello union")
+//@   at call "buildMultiNeedlePF(filteredAll, ci, usePrefix, useSuffix)" requires anchoredPrefixFollowsAnchor:
+//@       usePrefix && re.Op == syntax.OpConcat && len(re.Sub) >= 2 ==> !consumesBesideLiteral(re.Sub[1])
+//@   at call "buildMultiNeedlePF(filteredAll, ci, usePrefix, useSuffix)" requires anchoredSuffixPrecedesAnchor:
+//@       useSuffix && re.Op == syntax.OpConcat && len(re.Sub) >= 2 ==> !consumesBesideLiteral(re.Sub[len(re.Sub) - 2])
+//@ func buildCombinedPF$2 props C11,C07
+//@   requires capturedLower: isLowerStr(needle)
+//@   ensures complete: occursFold(s, needle) ==> result
+
+// prefilterFunc: closure $3 is the single-needle case-insensitive check, $6 the "non-ASCII input: maybe" wrapper.
+// Anchored prefix / suffix check (Gap 1): strings.HasPrefix(s, needles[0]) is only a necessary condition of a match if
+// the first literal sits DIRECTLY behind the \A anchor. A structural necessary condition of that: the node that follows
+// the anchor is not optional (x*, x?), not a character class / any-char (or a repetition of one) and not an alternation:
+// those consume input in front of the literal, and extractLiterals never takes the first literal out of them.
+// Before the fix the code never looked at that node (usePrefix = hasBeginAnchor(re) && len(origFirst) >= 2) and these
+// clauses failed for a genuine reason: `\A\d+hello` rejected "123hello", `\Ax?hello` "xhello", `hello\d+\z` "hello123"
+// (prefilter false, regexp true; confirmed by a Go test). Now literalFollowsBeginAnchor / literalPrecedesEndAnchor
+// (contracts below) decide usePrefix / useSuffix and the clauses discharge.
+// unwrapCap(re): re with its outer capture groups removed (definition by recursion over the tree).
+//@ spec unwrapCap(re *syntax.Regexp) *syntax.Regexp
+//@ axiom unwrapCapDef: forall re *syntax.Regexp :: unwrapCap(re) == ite(re.Op == syntax.OpCapture, unwrapCap(re.Sub[0]), re)
+// The helpers that now decide usePrefix / useSuffix: true exactly when the pattern (captures unwrapped) is a
+// concatenation that starts with \A (ends with \z) and whose next (previous) operand unwraps to a literal node.
+//@ func isLiteralNode props C11,C07
+//@   requires wf: astWF(re)
+//@   ensures result == (unwrapCap(re).Op == syntax.OpLiteral)
+//@   loop 1 vars re
+//@     invariant astWF(re) && unwrapCap(re) == unwrapCap(old(re))
+//@ func literalFollowsBeginAnchor props C11,C07
+//@   requires wf: astWF(re)
+//@   ensures result == (unwrapCap(re).Op == syntax.OpConcat && len(unwrapCap(re).Sub) >= 2 &&
+//@       unwrapCap(re).Sub[0].Op == syntax.OpBeginText && unwrapCap(unwrapCap(re).Sub[1]).Op == syntax.OpLiteral)
+//@   loop 1 vars re
+//@     invariant astWF(re) && unwrapCap(re) == unwrapCap(old(re))
+//@ func literalPrecedesEndAnchor props C11,C07
+//@   requires wf: astWF(re)
+//@   ensures result == (unwrapCap(re).Op == syntax.OpConcat && len(unwrapCap(re).Sub) >= 2 &&
+//@       unwrapCap(re).Sub[len(unwrapCap(re).Sub) - 1].Op == syntax.OpEndText && unwrapCap(unwrapCap(re).Sub[len(unwrapCap(re).Sub) - 2]).Op == syntax.OpLiteral)
+//@   loop 1 vars re
+//@     invariant astWF(re) && unwrapCap(re) == unwrapCap(old(re))
+//@ define isClassOp(op syntax.Op) bool := op == syntax.OpCharClass || op == syntax.OpAnyChar || op == syntax.OpAnyCharNotNL
+//@ define consumesBesideLiteral(n *syntax.Regexp) bool := n.Op == syntax.OpStar || n.Op == syntax.OpQuest || isClassOp(n.Op) || n.Op == syntax.OpAlternate ||
+//@     ((n.Op == syntax.OpPlus || n.Op == syntax.OpRepeat) && len(n.Sub) == 1 && isClassOp(n.Sub[0].Op))
+//@ func prefilterFunc props C11,C07
+//@   at call "buildMultiNeedlePF(filtered, caseInsensitive, usePrefix, useSuffix)" requires anchoredPrefixFollowsAnchor:
+//@       usePrefix && re.Op == syntax.OpConcat && len(re.Sub) >= 2 ==> !consumesBesideLiteral(re.Sub[1])
+//@   at call "buildMultiNeedlePF(filtered, caseInsensitive, usePrefix, useSuffix)" requires anchoredSuffixPrecedesAnchor:
+//@       useSuffix && re.Op == syntax.OpConcat && len(re.Sub) >= 2 ==> !consumesBesideLiteral(re.Sub[len(re.Sub) - 2])
+//@   at "needle := filtered[0]" requires capturedLower: caseInsensitive ==> isLowerStr(filtered[0])
+//@ func prefilterFunc$3 props C11,C07
+//@   requires capturedLower: isLowerStr(needle)
+//@   ensures complete: occursFold(s, needle) ==> result
+//@ func prefilterFunc$6 props C11,C07
+//@   requires innerSet: !isnil(inner)
+//@   ensures nonASCIIMaybe: !isASCIIStr(s) ==> result
+
+// ---- AST walkers: what can be said without a semantics of the tree. Optional nodes contribute no length. astWF (the
+// shape invariant of regexp/syntax trees, assumed of syntax.Parse in rxprefilter.spec) is what makes re.Sub[0] safe.
+//@ func hasFlag props C11,C07
+//@   requires wf: astWF(re)
+//@ func minLen props C11,C07
+//@   requires wf: astWF(re)
+//@   ensures optional: re.Op == syntax.OpQuest || re.Op == syntax.OpStar ==> result == 0
+//@   ensures oneChar: re.Op == syntax.OpAnyCharNotNL || re.Op == syntax.OpAnyChar || re.Op == syntax.OpCharClass ==> result == 1
+//@   ensures anchors: re.Op == syntax.OpBeginLine || re.Op == syntax.OpEndLine || re.Op == syntax.OpBeginText || re.Op == syntax.OpEndText ||
+//@       re.Op == syntax.OpWordBoundary || re.Op == syntax.OpNoWordBoundary || re.Op == syntax.OpEmptyMatch ==> result == 0
+// ==== END C11 rx prefilter section ====
